@@ -12,13 +12,18 @@ RULE = ("anchor x comparison tables over a 9-row alphabet (3 alpha parts x 3 bet
 ASSUMPTIONS = ["tidytcells.tr.get_aa_sequence is the trusted data source for CDR1/CDR2 (property wording)",
                "the value at [i,j] may depend only on (row i, row j): all 81 ordered row pairs are covered, tables establish locality/order/label independence",
                "rapidfuzz cdist workers=-1 answered with one thread in the bulk spaces"]
-REQUIRED_CLASSES = {"all": ["allele-without-cdr2", "empty-cdr3", "distinct-prime-weights", "permuted-index", "duplicated-index", "rejects-non-table", "free-running-threads", "cdr3-distance-beyond-bins", "table-of-thousands-of-rows", "same-concatenation-different-split", "delta-v-allele"]}
+REQUIRED_CLASSES = {"all": ["allele-without-cdr2", "empty-cdr3", "distinct-prime-weights", "permuted-index", "duplicated-index", "rejects-non-table", "free-running-threads", "cdr3-distance-beyond-bins", "table-of-thousands-of-rows", "same-concatenation-different-split", "delta-v-allele", "one-gene-several-alleles"]}
 MIN_OUTCOMES = 10
 SINGLE_THREAD_RAPIDFUZZ = True
 TIER = "quick"
 
-ALPHA = (("TRAV1-1*01", "CA"), ("TRAV5*01", "CAC"), ("TRAV40*01", ""), ("TRAV1-1*01", "C"), ("TRAV1-1*01", "CS"), ("TRDV1*01", "CA"))
-BETA = (("TRBV2*01", "CS"), ("TRBV6-9*01", "CSS"), ("TRBV2*01", ""), ("TRBV2*01", "SC"), ("TRBV2*01", "C"), ("TRBV2*01", "CSC"))
+ALPHA = (("TRAV1-1*01", "CA"), ("TRAV5*01", "CAC"), ("TRAV40*01", ""), ("TRAV1-1*01", "C"), ("TRAV1-1*01", "CS"), ("TRDV1*01", "CA"),
+         # 6..10: alleles of ONE gene whose germline CDR1 differ (TRAV12-2: DRGSQS / DRVSQS / DQGSQS) or whose CDR2 exists in one allele only (TRAV2)
+         ("TRAV12-2*01", "CA"), ("TRAV12-2*03", "CA"), ("TRAV12-2*04", "CA"), ("TRAV2*01", "C"), ("TRAV2*02", "C"))
+BETA = (("TRBV2*01", "CS"), ("TRBV6-9*01", "CSS"), ("TRBV2*01", ""), ("TRBV2*01", "SC"), ("TRBV2*01", "C"), ("TRBV2*01", "CSC"),
+        # 6..7: TRBV19 alleles with different CDR2 (SQIVND / SHIVND)
+        ("TRBV19*01", "CS"), ("TRBV19*02", "CS"))
+ALLELE_SETS = (((6, 6), (7, 6), (8, 7), (6, 7), (7, 7)), ((9, 6), (10, 6), (9, 7)))
 R = tuple(itertools.product(range(3), range(3)))
 CLASSES = ("AlphaCdr3Levenshtein", "BetaCdr3Levenshtein", "Cdr3Levenshtein", "AlphaCdrLevenshtein", "BetaCdrLevenshtein", "CdrLevenshtein")
 WNAMES = ("insertion_weight", "deletion_weight", "substitution_weight", "alpha_weight", "beta_weight", "cdr1_weight", "cdr2_weight", "cdr3_weight")
@@ -34,7 +39,7 @@ def loops(v):
     from tidytcells import tr
     if v not in _LOOPS:
         d = tr.get_aa_sequence(v)
-        _LOOPS[v] = (d.get("CDR1-IMGT", ""), d.get("CDR2-IMGT", ""))
+        _LOOPS[v] = (d.get("CDR1-IMGT") or "", d.get("CDR2-IMGT") or "")
     return _LOOPS[v]
 
 
@@ -117,6 +122,9 @@ def spaces(tier):
         for n in (24, 25, 26, 36, 51, 71, 80):
             yield ("longcdr3", n)
         yield ("split",)
+        for si in range(len(ALLELE_SETS)):
+            for rows in E.lists(range(len(ALLELE_SETS[si])), 3, minlen=2):
+                yield ("alleles", si, rows)
         for N in (257, 1025, 3001) + (() if q else (10001,)):
             yield ("bigtable", N)
 
@@ -308,6 +316,24 @@ def check_case(case, acc):
                     acc.fail("%s/rows-with-equal-concatenation-or-partial-duplicates" % cls, ("split1", rows, cls), exp, r if raised(r) else r.tolist())
                     return
                 acc.ok()
+    elif kind == "alleles":
+        # every row of the table carries the same V *gene* but not the same allele; alleles of one gene may have different germline loops
+        _, si, rows = case
+        S = ALLELE_SETS[si]
+        acc.cls("one-gene-several-alleles")
+        if any(not loops(ALPHA[S[i][0]][0])[1] for i in rows):
+            acc.cls("allele-without-cdr2")
+        A = table([S[i] for i in rows], "shifted")
+        for cls in ("AlphaCdrLevenshtein", "BetaCdrLevenshtein", "CdrLevenshtein"):
+            m, kw = make(cls, PRIMES)
+            r = acc.call(m.calc_cdist_matrix, A, A.iloc[::-1])
+            exp = [[ref_value(cls, kw, S[a], S[b]) for b in rows[::-1]] for a in rows]
+            v = acc.call(m.calc_pdist_vector, A)
+            expv = [ref_value(cls, kw, S[rows[i]], S[rows[j]]) for i in range(len(rows)) for j in range(i + 1, len(rows))]
+            if raised(r) or r.tolist() != exp or raised(v) or v.tolist() != expv:
+                acc.fail("%s/alleles-of-one-gene" % cls, case, exp, r if raised(r) else r.tolist())
+                return
+            acc.ok((cls, str(exp)), nontrivial=any(any(x) for x in exp))
     elif kind == "split1":
         _, rows, cls = case
         S = [(3, 3), (4, 4), (3, 5), (2, 4), (3, 2), (4, 3), (3, 3), (5, 0)]
